@@ -80,6 +80,7 @@ type HarnessResult struct {
 	Witnesses    []Violation // models of completed paths, for native validation
 	Inconclusive []string
 	Wall         time.Duration
+	witSig       map[string]bool
 }
 
 type Runner struct {
@@ -148,7 +149,15 @@ func (r *Runner) worker() {
 		hr.Wall += time.Since(t0)
 		hr.Violations = append(hr.Violations, viol...)
 		if wit != nil && len(hr.Witnesses) < r.cfg.Witnesses {
-			hr.Witnesses = append(hr.Witnesses, *wit)
+			// prefer witnesses of different shapes (distinct vf.Choice decisions)
+			sig := fmt.Sprint(wit.Choices)
+			if hr.witSig == nil {
+				hr.witSig = map[string]bool{}
+			}
+			if !hr.witSig[sig] {
+				hr.witSig[sig] = true
+				hr.Witnesses = append(hr.Witnesses, *wit)
+			}
 		}
 		for _, s := range inc {
 			if len(hr.Inconclusive) < 20 {
